@@ -562,11 +562,14 @@ thm("C14", ["C14"], ["C14_no_fault", "C14_failed_call_changes_nothing", "C14_nul
 thm("C15", ["C14"], ["C15_balanced", "C15_single_owner", "C15_all_released", "C15_cleanup", "C15_cleanup_idempotent", "C14_no_fault", "C14_inert_object"])
 thm("C16", ["C14"], ["C16_alloc_failure", "C16_init_success", "C16_then_inert", "C14_no_fault"])
 thm("C17", ["C14"], ["C17_wiped_before_free", "C17_source_sizes", "SkinnyVerif.Api.factsSizes_wipeOK"])
-thm("C02", ["C02", "C10"], ["C02_mantis", "C02_swap_modes", "C02_swap_enc_is_dec", "C02_swap_dec_is_enc", "C02_crypt_of_keys", "mantisPieces", "mantisKeys", "C10_mantis_set_key"])
+thm("C02", ["C02", "C10", "C07M"], ["C07_mantis_vec128_block", "C07_mantis_vec128_spec", "C02_mantis", "C02_swap_modes", "C02_swap_enc_is_dec", "C02_swap_dec_is_enc", "C02_crypt_of_keys", "mantisPieces", "mantisKeys", "C10_mantis_set_key"])
 thm("C07", ["C07", "C07V"], ["C07_skinny128", "C07_skinny64", "parallelBlocks_eq_ecb", "ecb_length", "C07_parallel_size",
             "C07_vec128_block", "C07_vec128_spec", "vecEnc4_block", "vecDec4_block",
             "C07_vec256_block", "C07_vec256_spec", "vecEnc8_block", "vecDec8_block",
-            "C07_vec64_block", "C07_vec64_spec", "vecEnc8h_block", "vecDec8h_block", "C12_vec_unaligned_paths"])
+            "C07_vec64_block", "C07_vec64_spec", "vecEnc8h_block", "vecDec8h_block", "C12_vec_unaligned_paths",
+            "C07_mantis_vec128_block", "C07_mantis_vec128_spec", "SkinnyVerif.Lemmas.vecMantis8_lane"])
+PROPS["C07"]["modules"].append("SkinnyVerif.Properties.C07M")
+_c07 = PROPS["C07"]
 thm("C08", ["C08"], ["C08_no_leak_events", "C08_table_complete"])
 thm("C09", ["C08"], ["C09_block_functions", "C09_table_complete", "C11_no_junk_in_loaders"])
 PROPS["C09"]["modules"].append("SkinnyVerif.Properties.C11")
